@@ -2,7 +2,7 @@
 from .. import AnalysisBroken
 from ..data import check_vdists
 from ..nnabs import MOD
-from ._nn import check_rank2, run_fga
+from ._nn import check_candidates, check_engines_stateless, check_rank2, run_fga
 from ._tcr import check_tcrdist
 
 CLAIMED = True
@@ -25,6 +25,8 @@ def run(r):
     rep.explanation = "All insertion sites under a callable custom distance, the TCRdist pipeline per chain value, rank-2 subscripts and the two shipped tables were analysed."
     rep.trust("rapidfuzz.distance.Levenshtein.distance is the exact Levenshtein distance", "DESIGN Appendix A.1 / A.2 / A.4 / A.5 (candidate lemmas)",
               "pwseqdist.apply_pairwise_sparse(metric=f, seqs=S, pairs=E)[k] = f(S[E[k,0]], S[E[k,1]])", "pandas Index.get_indexer(labels) returns positions; DataFrame.values is row-major")
+    check_candidates(r, "C14", cds=("callable",))
+    check_engines_stateless(r, "C14-STATE", cds=("callable",))
     run_fga(r, "C14", {"callable"}, floor=10)
     n = check_rank2(r, "C14-SHP", MOD + "nearest_neighbor_tcrdist")
     rep.require(n >= 2, f"C14-SHP: {n} rank-2 subscripts on the neighbour array, floor is 2")
